@@ -647,6 +647,11 @@ class Tracer:
     def _call_result(self, b, t, rest, depth, seen, at=None):
         nat = b if at is not None else None
         callee = t.get("callee")
+        # the Ok / Err payload of a call's Result, however it was taken apart (`?`, match, desugared combinator)
+        if rest[:2] == ["dc:Ok", "f:Ok.0"]:
+            rest = ["?ok"] + list(rest[2:])
+        elif rest[:2] == ["dc:Err", "f:Err.0"]:
+            rest = ["?err"] + list(rest[2:])
         if callee == TRY_BRANCH and rest[:2] == ["dc:Continue", "f:Continue.0"]:
             # x? : value of the Ok payload of arg0
             return self._op(t["args"][0], ["?ok"] + rest[2:], depth, seen, nat)
